@@ -99,8 +99,8 @@ def run_falseloop(sh, case):
             per_pass = 1 if phase == "eval" else 2
             if mx > per_pass:
               sh.count("scc_evaluations_iterated_2plus"); iterated = True
-            if mx > 101 * per_pass:
-              sh.violation("scc-executed-more-than-101-times", {"mode": mode, "count": mx, "design_source": src}, case=case)
+            if mx > 101 * per_pass * max(1, len(cnt)):
+              sh.violation("scc-executed-more-than-the-iteration-bound-allows", {"mode": mode, "count": mx, "design_source": src}, case=case)
             snap = live.snapshot(paths)
             exp = reftrace[cyc][0 if phase == "eval" else 1]
             sh.count("value_comparisons", len(paths))
@@ -151,7 +151,7 @@ def templates(rng):
   """-> (name, source, expectation) ; expectation: list of (input, 'return'|'raise')"""
   w = rng.choice([1, 2, 4, 8, 16, 33, 64])
   n = rng.randrange(3, 14)
-  t = rng.randrange(13)
+  t = rng.randrange(14)
   H = HDR.format(w=w) + FL_HDR
   if t == 0:   # monotone, convergent
     body = f"""    s.a = InPort({w}); s.b = InPort({w}); s.x = Wire({w}); s.y = Wire({w})
@@ -278,6 +278,22 @@ def templates(rng):
     @update
     def up_out(): s.o @= s.S.v[{k - 1}]"""
     return "false-loop-through-list-field-with-whole-struct-copies", Hv + FL_HDR, body, [({"a": rng.getrandbits(w)}, "return") for _ in range(4)]
+  if t == 13:  # two cyclic groups in a row: a convergent one (u <-> v) whose BOTH blocks feed BOTH blocks of a gated inverter ring; the
+    # ring is stable for en = 0 and has no stable assignment for en = 1 (period-2 oscillation): must be reported, whatever
+    # the order in which the second group is entered from the first
+    n1, n2, n3, n4 = rng.sample(["hs_u", "hs_v", "osc_a", "osc_b", "a_u", "b_v", "z_a", "m_b"], 4)
+    body = f"""    s.a = InPort(1); s.u = Wire(1); s.v = Wire(1); s.x = Wire(1); s.y = Wire(1); s.o = OutPort(2)
+    @update
+    def {n1}(): s.u @= s.a | s.v
+    @update
+    def {n2}(): s.v @= s.u & s.a
+    @update
+    def {n3}(): s.x @= ~s.y & s.u & s.v
+    @update
+    def {n4}(): s.y @= s.x & s.u & s.v
+    @update
+    def up_out(): s.o @= concat(s.x, s.y)"""
+    return "gated-inverter-ring-behind-a-convergent-loop", H, body, [({"a": 0}, "return"), ({"a": 1}, "raise")]
   # t == 8: saturating min chain (convergent after several iterations)
   body = f"""    s.a = InPort({w}); s.x = Wire({w}); s.y = Wire({w})
     @update
@@ -330,8 +346,10 @@ def run_template(sh, case):
             raised = type(e).__name__
           cnt = Counter(e for e in tr.take() if e[2] == "comb")
           mx = max(cnt.values()) if cnt else 0
-          if mx > 101:
-            sh.violation("scc-executed-more-than-101-times", {"template": name, "mode": mode, "count": mx, "source": src}, case=case)
+          # a block may stand several times in the loop body of its group (once per edge from the preceding group): the bound
+          # of 100 applies to sweeps over the group, so one block runs at most 101 x (blocks of the design) times
+          if mx > 101 * max(1, len(cnt)):
+            sh.violation("scc-executed-more-than-the-iteration-bound-allows", {"template": name, "mode": mode, "count": mx, "blocks": len(cnt), "source": src}, case=case)
           if mx >= 2: sh.count("scc_evaluations_iterated_2plus")
           if raised == "BoundExceeded":
             sh.violation("scc-executed-more-than-the-iteration-bound(would hang)", {"template": name, "mode": mode, "inputs": inp,
